@@ -994,6 +994,51 @@ func opRemoveGapSites(s *state) (string, bool) {
 	return "RemoveGapSites", true
 }
 
+// opCleanSites: the other site cleaners (chosen character / majority character, whole alignment or ends only). Which
+// columns qualify is property C12's business; here the list model adopts the columns the operation reports as kept,
+// and everything C01 is about is then observed as after any other step: rows == selection of the kept columns,
+// names and order untouched, Length() == row length, index consistent.
+func opCleanSites(s *state) (string, bool) {
+	r, m := s.c.R, s.m
+	if s.al == nil || len(m.rows) == 0 || m.length() == 0 {
+		return "", true
+	}
+	cutoff := r.PickF([]float64{0, 0.25, 0.5, 0.75, 1})
+	ends := r.Bool()
+	var kept, rm []int
+	label := "RemoveMajorityCharacterSites"
+	if r.Bool() {
+		s.ops = append(s.ops, fmt.Sprintf("RemoveMajorityCharacterSites(%v,%v,false,false)", cutoff, ends))
+		_, _, kept, rm = s.al.RemoveMajorityCharacterSites(cutoff, ends, r.Bool(), r.Bool())
+	} else {
+		label = "RemoveCharacterSites"
+		ch := []uint8{s.residues()[r.Intn(len(s.residues()))]}
+		s.ops = append(s.ops, fmt.Sprintf("RemoveCharacterSites(%q,%v,%v,...)", ch, cutoff, ends))
+		_, _, kept, rm = s.al.RemoveCharacterSites(ch, cutoff, ends, r.Bool(), r.Bool(), r.Bool(), false)
+	}
+	L := m.length()
+	seen := make([]bool, L)
+	for _, j := range append(append([]int{}, kept...), rm...) {
+		if j < 0 || j >= L || seen[j] {
+			s.fail(label+":kept-removed-not-a-partition", "kept=%v removed=%v do not partition the %d columns", kept, rm, L)
+			return label, false
+		}
+		seen[j] = true
+	}
+	if len(kept)+len(rm) != L || !sort.IntsAreSorted(kept) {
+		s.fail(label+":kept-removed-not-a-partition", "kept=%v removed=%v do not partition the %d columns in order", kept, rm, L)
+		return label, false
+	}
+	for i := range m.rows {
+		b := make([]byte, len(kept))
+		for k, j := range kept {
+			b[k] = m.rows[i].seq[j]
+		}
+		m.rows[i].seq = string(b)
+	}
+	return label, true
+}
+
 func opTrimSeqs(s *state) (string, bool) {
 	r, m := s.c.R, s.m
 	if s.al == nil || len(m.rows) == 0 {
@@ -1317,7 +1362,7 @@ func opSubAlign(s *state) (string, bool) {
 	return "SubAlign", true
 }
 
-var allOps = []opFn{opAdd, opAdd, opAppend, opConcat, opRename, opRename, opRenameRegexp, opAppendId, opCleanNames, opTrimNames, opSort, opSort, opShuffle,
+var allOps = []opFn{opAdd, opAdd, opAppend, opConcat, opCleanSites, opRename, opRename, opRenameRegexp, opAppendId, opCleanNames, opTrimNames, opSort, opSort, opShuffle,
 	opFilterLength, opDedup, opRemoveSeqs, opRemoveGapSites, opTrimSeqs, opTranslate, opClone, opSample, opClear, opSetChar, opReplace, opPolicy, opCase, opUnalign, opSubAlign}
 
 var mutating = map[string]bool{}
@@ -1518,7 +1563,7 @@ func main() {
 	mon.SetNote("rule", "case = random initial container (alignment or sequence set, nt/aa, 0..12 rows x 0..12 columns, hostile and duplicate names, each duplicate policy) followed by 2..12 operations drawn from 27 public operations; after every operation every access path (NbSequences, Length, Iterate*, Sequences, by-index and by-name lookups for every name ever used, Alphabet, VerifInvariants hook) is compared with the list-of-rows model. Non-trivial = at least 2 state-changing operations each followed by a full observation; distinct = distinct operation/argument strings.")
 	mon.SetNote("assumptions", "reference model encodes the documented meaning of each operation (interface comments, docs/api);; state after a failed operation (other than a rejected insertion/trim) is outside the property: the history stops there;; histories stop once the caller has created duplicate names (only the observation after the renaming step is checked);; an empty alignment that still remembers a length (FilterLength/Deduplicate down to zero rows) is an unspecified corner: insertions into it are not generated")
 	for _, op := range []string{"Add:fresh", "Add:dup-same", "Add:dup-diff", "Add:wrong-length", "Append", "Concat", "Rename:partial", "Rename:swap", "Rename:all", "Rename:to-existing", "RenameRegexp", "AppendSeqIdentifier",
-		"CleanNames", "TrimNames", "TrimNamesAuto", "Sort", "ShuffleSequences", "FilterLength:min", "FilterLength:max", "FilterLength:both", "Deduplicate", "RemoveSeqs", "RemoveGapSites", "TrimSequences", "Translate",
+		"CleanNames", "TrimNames", "TrimNamesAuto", "Sort", "ShuffleSequences", "FilterLength:min", "FilterLength:max", "FilterLength:both", "Deduplicate", "RemoveSeqs", "RemoveGapSites", "RemoveMajorityCharacterSites", "RemoveCharacterSites", "TrimSequences", "Translate",
 		"Clone", "CloneSeqBag", "Sample", "Clear", "SetSequenceChar", "ReplaceChar", "Replace", "IgnoreIdentical", "Unalign", "SubAlign"} {
 		mon.Floor("op:"+op, 20)
 	}
